@@ -31,7 +31,7 @@ RULE = (
 ASSUMPTIONS = [
     "reference model: plain list + key function (written from the property statement and the documented isinstance(int)=index rule)",
     "typed-ness (KeyedList[T,K] parameters) of derived containers (+, slices) is not judged; their key function is",
-    "order of keys()/items() views is not judged",
+    "keys() / items() are judged as sequences in list order (since repair of the key index order)",
 ]
 EXHAUSTIVE = {"quick": False, "thorough": False}
 
@@ -358,6 +358,9 @@ def compare_view(U, l, L, probes, check_derived_of=None):
     chk("set(l.keys())", obs(lambda: set(l.keys())), ("ok", set(mk)))
     chk("items()", obs(lambda: {k: id(v) for k, v in l.items()}), ("ok", {k: id(v) for k, v in mk.items()}))
     chk("len(keys())", obs(lambda: len(l.keys())), ("ok", len(mk)))
+    # keys() / items() enumerate the items in list order ("agrees with a linear scan of the list")
+    chk("list(l.keys())", obs(lambda: list(l.keys())), ("ok", [kf(it) for it in L]))
+    chk("list(l.items())", obs(lambda: [(k, id(v)) for k, v in l.items()]), ("ok", [(kf(it), id(it)) for it in L]))
     chk("l == list", obs(lambda: l == list(L)), ("ok", True))
     n = len(L)
     for key in probes["keys"]:
